@@ -514,7 +514,8 @@ let op_lib2 (args : str list) : str list =
        | O4Parsed es ->
            "parsed" :: List.concat (List.map (function
              | ETypes l -> List.map sx_tdecl l
-             | EUnit u -> ["(" ^ (match u.u_kind with UFb -> "fb" | UProgram -> "program") ^ " " ^ lname u.u_name ^ " " ^ sx_items u.u_decls ^ " " ^ sx_list u.u_body ^ ")"]) es)
+             | EUnit u -> ["(" ^ (match u.u_kind with UFb -> "fb" | UProgram -> "program") ^ " " ^ lname u.u_name ^ " " ^ sx_items u.u_decls ^ " " ^ sx_list u.u_body ^ ")"]
+             | EFunc f -> ["(function " ^ lname f.fn_name ^ " " ^ lname f.fn_ret ^ " " ^ sx_items f.fn_decls ^ " " ^ sx_list f.fn_body ^ ")"]) es)
        | O4Rejected -> ["rejected"]
        | O4Fuel -> ["fuel"]
        | O4Scope -> ["scope"])
@@ -550,7 +551,11 @@ let op_lib2render (args : str list) : str list =
              | EUnit u ->
                  let vars = List.filter (function DVar _ -> true | _ -> false) u.u_decls in
                  let edges = List.filter (function DEdge _ -> true | _ -> false) u.u_decls in
-                 EUnit { u with u_decls = vars @ edges } in
+                 EUnit { u with u_decls = vars @ edges }
+             | EFunc f ->
+                 let vars = List.filter (function DVar _ -> true | _ -> false) f.fn_decls in
+                 let edges = List.filter (function DEdge _ -> true | _ -> false) f.fn_decls in
+                 EFunc { f with fn_decls = vars @ edges } in
            let toks = render_lib2 (List.map reorder es) in
            [ "rendered";
              S.concat " " (List.filter_map (fun (t : token) ->
